@@ -711,6 +711,27 @@ func c09Encoders(c *Ctx) {
 				if cc.IsInvoke() {
 					if cc.Method.Name() == "ToBytes" {
 						out = append(out, site{in, c.Sx().Of(cc.Value).String(), "", cc.Value, collectionOf(c, cc.Value)})
+						return
+					}
+					// another method invoked on the value (a size query, a "prepare" step): when an implementation in the module
+					// serialises part of its receiver, the call is a serialisation of that value too
+					if depth < 2 && cc.Method.Name() != "String" && cc.Method.Name() != "LongString" && cc.Method.Name() != "Summary" && cc.Method.Name() != "Code" {
+						for _, impl := range c.P.Callees(cl) {
+							if impl == nil || !inModule(impl) || impl.Blocks == nil || impl.Signature.Recv() == nil || impl.Name() == "ToBytes" {
+								continue
+							}
+							rs := c.Sx().Of(impl.Params[0]).String()
+							serialises := false
+							for _, s2 := range sitesOf(impl, depth+1) {
+								if strings.Contains(s2.recv, rs) {
+									serialises = true
+								}
+							}
+							if serialises {
+								out = append(out, site{in, c.Sx().Of(cc.Value).String(), shortName(impl), cc.Value, collectionOf(c, cc.Value)})
+								break
+							}
+						}
 					}
 					return
 				}
@@ -853,7 +874,7 @@ func collectionOf(c *Ctx, v ssa.Value) string {
 	if v == nil {
 		return ""
 	}
-	for i := 0; i < 4; i++ {
+	for i := 0; i < 6; i++ {
 		switch t := v.(type) {
 		case *ssa.UnOp:
 			v = t.X
@@ -882,6 +903,17 @@ func collectionOf(c *Ctx, v ssa.Value) string {
 					return c.Sx().Of(rg.X).String()
 				}
 			}
+			// s, ok := elem.(I): s is the element
+			if ta, ok := t.Tuple.(*ssa.TypeAssert); ok && t.Index == 0 {
+				v = ta.X
+				continue
+			}
+		case *ssa.TypeAssert:
+			v = t.X
+			continue
+		case *ssa.ChangeInterface:
+			v = t.X
+			continue
 		}
 		break
 	}
